@@ -5,6 +5,7 @@
   deviation.
 -/
 import SugarModel.Lemmas.HeapLemmas
+import SugarModel.Lemmas.ListLemmas
 import SugarModel.Spec.EvictPolicy
 namespace Sugar.Props.C08
 open Sugar Sugar.Evict
@@ -403,21 +404,7 @@ theorem lru_loop_ends_below (cfg : Cfg) (db : Nat) : ∀ (fuel : Nat) (es es' : 
 theorem evicted_key_gone (cfg : Cfg) (es es' : EState) (db : Nat) (k : Bytes)
     (hdel : deleteKeyE cfg es db k = .ok es') :
     es'.s.lookup db k = none ∧ k ∉ (es'.s.db db).vol := by
-  have hs : es'.s = Sugar.deleteKey es.s db k := by
-    unfold deleteKeyE at hdel
-    split at hdel
-    · split at hdel
-      · contradiction
-      · split at hdel
-        · contradiction
-        · injection hdel with hdel; rw [← hdel]
-    · split at hdel
-      · split at hdel
-        · contradiction
-        · split at hdel
-          · contradiction
-          · injection hdel with hdel; rw [← hdel]
-      · injection hdel with hdel; rw [← hdel]
+  have hs : es'.s = Sugar.deleteKey es.s db k := deleteKeyE_state cfg es es' db k hdel
   rw [hs]
   unfold Sugar.deleteKey State.lookup State.db
   by_cases hdb : es.s.hasDb db
@@ -438,28 +425,194 @@ theorem persist_keeps_cache_entry (c : Ctx) (env : Env) (es es' : EState) (k : B
   · simp at hx
     cases hx; exact ⟨rfl, rfl⟩
 
-/-! ## the server does not keep running: witnesses of the three ways eviction kills or stalls it -/
+/-! ## the server keeps running: Flush, the random policies (repaired upstream) -/
 
-/-- Flush leaves nil cells; the next cache update dereferences one (`none` = Go panic) -/
-theorem flush_nil_panics_witness :
-    ((lfuUpdate {} (b "a") 1).map fun c => lfuUpdate c.flush (b "z") 2) = some none := by decide
+/-- **Flush leaves empty heaps**: no cell, no recorded key — in particular no nil cell for a later Update, Delete,
+    Pop, GetCount or GetTime to dereference -/
+theorem flush_leaves_empty_heaps (es es' : EState) (db : Nat) (h : flushCaches es db = .ok es') :
+    es'.lfu.get db = some ⟨[], []⟩ ∧ es'.lru.get db = some ⟨[], []⟩ ∧ es'.s = es.s := by
+  unfold flushCaches at h
+  split at h
+  · injection h with h; rw [← h]
+    simp [Cache.flush, NMap.get_put_same]
+  · contradiction
 
-/-- volatile-random at the limit with no volatile key: index out of range in the background goroutine -/
-theorem volatile_random_panics_witness :
-    let s : State := { dbs := [(0, ⟨[(b "a", ⟨.str (b "v"), none⟩)], []⟩)], mem := 100 }
-    let es : EState := { s := s, lfu := [(0, {})], lru := [(0, {})] }
-    (adjustMemoryUsage ⟨50, .volatileRandom⟩ {} 0 es).toOption = none := by decide
+/-- a flushed cache is a valid heap again, whatever it held -/
+theorem flush_keeps_heap {E : Type} (lt : E → E → Bool) (c : Cache E) : CacheOk lt c.flush :=
+  ⟨[], rfl, heap_nil lt⟩
 
-/-- allkeys-random at the limit on a database without keys never returns -/
-theorem allkeys_random_hang_witness :
-    let s : State := { dbs := [(0, ⟨[], []⟩)], mem := 100 }
-    let es : EState := { s := s, lfu := [(0, {})], lru := [(0, {})] }
-    (match adjustMemoryUsage ⟨50, .allkeysRandom⟩ {} 0 es with
-     | .error (.hang _) => true
-     | _ => false) = true := by decide
+/-- the first access after a flush starts a fresh heap (LFU: count 1; it cannot fail) -/
+theorem lfu_update_after_flush (c : Cache LfuE) (k : Bytes) (now : Nat) :
+    lfuUpdate c.flush k now = some ⟨[k], [some ⟨k, 1, now⟩]⟩ := by
+  simp [lfuUpdate, Cache.flush, addKey]
 
-/-- `eviction_total` is false; what holds: with valid (nil-free) heaps the LFU / LRU loops neither panic nor hang
-    — non-vacuity example for the loop theorems: one key over the limit is evicted and the loop stops -/
+/-- **allkeys-random on a database without keys returns at once** ("no keys to evict"), leaving the state alone -/
+theorem allkeys_random_empty_returns (cfg : Cfg) (env : Env) (db fuel : Nat) (es : EState)
+    (h : (es.s.db db).store = []) : adjustAllRandom cfg env db (fuel + 1) es = .ok (false, es) := by
+  unfold adjustAllRandom
+  simp [h]
+
+/-- **the allkeys-random loop ends**: every round removes a key of the database, so with fuel beyond the number of
+    its keys the loop neither spins nor panics (it may only be `stuck`: the observed run named by `env` is not a run) -/
+theorem allkeys_random_loop_ends (cfg : Cfg) (env : Env) (db : Nat) (hpol : cfg.policy = .allkeysRandom) :
+    ∀ (fuel : Nat) (es : EState), (es.s.db db).store.length < fuel → ∀ w,
+      adjustAllRandom cfg env db fuel es ≠ .error (.hang w) ∧ adjustAllRandom cfg env db fuel es ≠ .error (.panic w) := by
+  intro fuel
+  induction fuel with
+  | zero => intro es h; omega
+  | succ fuel ih =>
+    intro es hlen w
+    unfold adjustAllRandom
+    split
+    · exact ⟨by simp, by simp⟩
+    · rename_i hne
+      split
+      · exact ⟨by simp, by simp⟩
+      · rename_i k rest hv
+        rw [deleteKeyE_random cfg es db k (Or.inl hpol)]
+        simp only
+        split
+        · exact ⟨by simp, by simp⟩
+        · apply ih
+          have hne' : (es.s.db db).store ≠ [] := by
+            intro h0; rw [h0] at hne; simp at hne
+          have hk : k ∈ (es.s.db db).store.map Prod.fst :=
+            victims_sub_store env es.s es.phase db k (by rw [hv]; exact List.mem_cons_self)
+          rw [db_deleteKey_same es.s db k (hasDb_of_store_ne es.s db hne')]
+          have := kmap_del_length_lt (es.s.db db).store k hk
+          simp only
+          omega
+
+/-- **allkeys-random never spins and never panics** (adjustMemoryUsage for one database, every state) -/
+theorem allkeys_random_total (cfg : Cfg) (env : Env) (db : Nat) (es : EState) (hpol : cfg.policy = .allkeysRandom) (w : String) :
+    adjustMemoryUsage cfg env db es ≠ .error (.hang w) ∧ adjustMemoryUsage cfg env db es ≠ .error (.panic w) := by
+  unfold adjustMemoryUsage
+  split
+  · exact ⟨by simp, by simp⟩
+  · split
+    · exact ⟨by simp, by simp⟩
+    · simp only [hpol]
+      exact allkeys_random_loop_ends cfg env db hpol _ es (by omega) w
+
+/-- **volatile-random with no volatile key returns at once** ("no volatile keys to evict"), leaving the state alone -/
+theorem volatile_random_empty_returns (cfg : Cfg) (env : Env) (db fuel : Nat) (es : EState)
+    (h : (es.s.db db).vol = []) : adjustVolRandom cfg env db (fuel + 1) es = .ok (false, es) := by
+  unfold adjustVolRandom
+  simp [h]
+
+/-- the volatile-random loop ends: every round removes a cell of the volatile index -/
+theorem volatile_random_loop_ends (cfg : Cfg) (env : Env) (db : Nat) (hpol : cfg.policy = .volatileRandom) :
+    ∀ (fuel : Nat) (es : EState), (es.s.db db).vol.length < fuel → ∀ w,
+      adjustVolRandom cfg env db fuel es ≠ .error (.hang w) ∧ adjustVolRandom cfg env db fuel es ≠ .error (.panic w) := by
+  intro fuel
+  induction fuel with
+  | zero => intro es h; omega
+  | succ fuel ih =>
+    intro es hlen w
+    unfold adjustVolRandom
+    split
+    · exact ⟨by simp, by simp⟩
+    · rename_i hne
+      split
+      · exact ⟨by simp, by simp⟩
+      · rename_i k rest hv
+        rw [deleteKeyE_random cfg es db k (Or.inr hpol)]
+        simp only
+        split
+        · exact ⟨by simp, by simp⟩
+        · apply ih
+          have hne' : (es.s.db db).vol ≠ [] := by
+            intro h0; rw [h0] at hne; simp at hne
+          have hk : k ∈ (es.s.db db).vol :=
+            volVictims_sub_vol env es.s es.phase db k (by rw [hv]; exact List.mem_cons_self)
+          rw [db_deleteKey_same es.s db k (hasDb_of_vol_ne es.s db hne')]
+          have := filter_ne_length_lt (es.s.db db).vol k hk
+          simp only
+          omega
+
+/-- **volatile-random never panics and never spins** (adjustMemoryUsage for one database, every state — with or
+    without volatile keys, whatever the number of databases) -/
+theorem volatile_random_total (cfg : Cfg) (env : Env) (db : Nat) (es : EState) (hpol : cfg.policy = .volatileRandom) (w : String) :
+    adjustMemoryUsage cfg env db es ≠ .error (.hang w) ∧ adjustMemoryUsage cfg env db es ≠ .error (.panic w) := by
+  unfold adjustMemoryUsage
+  split
+  · exact ⟨by simp, by simp⟩
+  · split
+    · exact ⟨by simp, by simp⟩
+    · simp only [hpol]
+      exact volatile_random_loop_ends cfg env db hpol _ es (by omega) w
+
+/-- **the volatile-random pick is always a cell of the volatile index of that database**: a key of the database
+    that the loop removed was listed in `keysWithExpiry.keys[database]` when the loop started -/
+theorem volatile_random_removes_only_indexed_keys (cfg : Cfg) (env : Env) (db : Nat) (hpol : cfg.policy = .volatileRandom) :
+    ∀ (fuel : Nat) (es es' : EState) (r : Bool), adjustVolRandom cfg env db fuel es = .ok (r, es') →
+      ∀ k, (es.s.lookup db k).isSome = true → es'.s.lookup db k = none → k ∈ (es.s.db db).vol := by
+  intro fuel
+  induction fuel with
+  | zero => intro es es' r h; simp [adjustVolRandom] at h
+  | succ fuel ih =>
+    intro es es' r h k hpre hpost
+    unfold adjustVolRandom at h
+    split at h
+    · injection h with h; injection h with _ h2
+      subst h2
+      rw [hpost] at hpre; simp at hpre
+    · rename_i hne
+      split at h
+      · contradiction
+      · rename_i k0 rest hv
+        have hk0 : k0 ∈ (es.s.db db).vol :=
+          volVictims_sub_vol env es.s es.phase db k0 (by rw [hv]; exact List.mem_cons_self)
+        rw [deleteKeyE_random cfg es db k0 (Or.inr hpol)] at h
+        simp only at h
+        by_cases hkk : k0 = k
+        · rw [← hkk]; exact hk0
+        · have hl1 : (Sugar.deleteKey es.s db k0).lookup db k = es.s.lookup db k := by
+            rw [lookup_deleteKey]; simp [hkk]
+          split at h
+          · injection h with h; injection h with _ h2
+            rw [← h2] at hpost
+            simp only at hpost
+            rw [hl1] at hpost
+            rw [hpost] at hpre; simp at hpre
+          · have hne' : (es.s.db db).vol ≠ [] := by
+              intro h0; rw [h0] at hne; simp at hne
+            have := ih _ es' r h k (by simp only; rw [hl1]; exact hpre) hpost
+            simp only at this
+            rw [db_deleteKey_same es.s db k0 (hasDb_of_vol_ne es.s db hne')] at this
+            exact (List.mem_filter.mp this).1
+
+/-- non-vacuity of the "returns at once" theorems: at the limit with a persistent key only (volatile-random), or with
+    no key at all (allkeys-random), adjustMemoryUsage reports "nothing to evict", changes nothing, and the server lives on -/
+example :
+    let s0 : State := { dbs := [(0, ⟨[(b "p", ⟨.str (b "v"), none⟩)], []⟩)], mem := 100 }
+    let es : EState := { s := s0, lfu := [(0, {})], lru := [(0, {})] }
+    (adjustMemoryUsage ⟨50, .volatileRandom⟩ {} 0 es).toOption.map (fun r => (r.1, r.2.s.mem)) = some (false, 100) ∧
+    (adjustMemoryUsage ⟨50, .allkeysRandom⟩ {} 0 { es with s := { dbs := [(0, ⟨[], []⟩)], mem := 100 } }).toOption.map (fun r => (r.1, r.2.s.mem)) = some (false, 100) := by decide
+
+/-- non-vacuity of the loop theorems: a volatile key and a persistent one over the limit — volatile-random removes the
+    volatile key (store, volatile index), usage falls below the limit and the loop returns; the persistent key stays -/
+example :
+    let s1 : State := { dbs := [(0, ⟨[(b "a", ⟨.str (b "v"), some 9⟩), (b "p", ⟨.str (b "v"), none⟩)], [b "a"]⟩)], mem := 116 }
+    let es1 : EState := { s := s1, lfu := [(0, {})], lru := [(0, {})] }
+    (adjustVolRandom ⟨100, .volatileRandom⟩ {} 0 1 es1).toOption.map
+      (fun r => (r.1, r.2.s.mem, (r.2.s.db 0).store.map (·.1), (r.2.s.db 0).vol)) = some (true, 58, [b "p"], []) := by
+  intro s1 es1
+  have hf : ((es1.s.db 0).vol.filter fun k =>
+      ((!(((({} : Env).keep.get 0).getD []).contains k) || (es1.s.lookup 0 k).isNone) != ({} : Env).flip.contains k) &&
+        !(({} : Env).hold.contains k && es1.phase < ({} : Env).holdUntil)) = [b "a"] := by decide
+  have hv : volVictims {} es1.s es1.phase 0 = [b "a"] := by
+    unfold volVictims
+    simp only [hf, List.mergeSort_singleton]
+  unfold adjustVolRandom
+  rw [hv]
+  decide
+
+/-- `eviction_total`: the two random policies are total (`allkeys_random_total`, `volatile_random_total`); the LFU / LRU
+    loops neither panic nor hang on valid (nil-free) heaps, and Flush no longer produces nil cells
+    (`flush_leaves_empty_heaps`); what still ends the process under every eviction policy is the background sampler
+    (`sampler_never_returns`). Non-vacuity example for the LFU loop theorems: one key over the limit is evicted and
+    the loop stops -/
 example :
     let s : State := { dbs := [(0, ⟨[(b "a", ⟨.str (b "v"), none⟩)], []⟩)], mem := 100 }
     let es : EState := { s := s, lfu := [(0, ⟨[b "a"], [some ⟨b "a", 1, 1⟩]⟩)], lru := [(0, {})] }
@@ -500,11 +653,77 @@ theorem persist_keeps_volatile_index (c : Ctx) (s s' : State) (k : Bytes)
     unfold State.db at hin
     exact mem_addVol _ _ hin
 
-/-- OBJECTFREQ on a database that was never written dereferences a nil cache -/
-theorem objectfreq_unopened_db_panics_witness :
-    (match handleObjFreqE { db := 0, now := 0, cfg := ⟨100, .allkeysLfu⟩ } { s := { dbs := [], mem := 0 } } [b "objectfreq", b "k"] with
-     | .error (.panic _) => true
-     | _ => false) = true := by decide
+/-- **OBJECTFREQ / OBJECTIDLETIME on a database that was never written to answer "key does not exist"** and change
+    nothing (there is no cache to dereference: the answer is the one for an absent key) -/
+theorem object_commands_on_unopened_db (c : Ctx) (es : EState) (n k : Bytes)
+    (hf : es.lfu.get c.db = none) (hr : es.lru.get c.db = none) :
+    handleObjFreqE c es [n, k] = .ok (.res (.err (b "Key: " ++ k ++ b " does not exist.")), es) ∧
+    handleObjIdleE c es [n, k] = .ok (.res (.err (b "Error: key " ++ k ++ b " does not exist.")), es) := by
+  simp [handleObjFreqE, handleObjIdleE, hf, hr]
+
+/-- OBJECTFREQ / OBJECTIDLETIME never panic as long as the heaps hold no nil cell (and no operation creates one) -/
+theorem object_commands_never_panic (c : Ctx) (es : EState) (cmd : List Bytes)
+    (hf : ∀ ch, es.lfu.get c.db = some ch → ∃ ents, unwrapCells ch.cells = some ents)
+    (hr : ∀ ch, es.lru.get c.db = some ch → ∃ ents, unwrapCells ch.cells = some ents) (w : String) :
+    handleObjFreqE c es cmd ≠ .error (.panic w) ∧ handleObjIdleE c es cmd ≠ .error (.panic w) := by
+  constructor
+  · unfold handleObjFreqE
+    split
+    · split
+      · simp
+      · rename_i ch hch
+        obtain ⟨ents, he⟩ := hf ch hch
+        split
+        · simp
+        · rw [he]; simp only; split <;> simp
+    · simp
+  · unfold handleObjIdleE
+    split
+    · split
+      · simp
+      · rename_i ch hch
+        obtain ⟨ents, he⟩ := hr ch hch
+        split
+        · simp
+        · rw [he]; simp only; split <;> simp
+    · simp
+
+/-! ## a push refused for lack of memory changes nothing -/
+
+/-- **noeviction: LPUSH / RPUSH on an absent key at or above the limit is refused and leaves the keyspace exactly as
+    it was** (the list is written by one SetValues call, and a refused SetValues changes nothing) -/
+theorem refused_push_changes_nothing (left : Bool) (c : Ctx) (s : State) (k e0 : Bytes) (es : List Bytes)
+    (hpol : c.cfg.policy = .noeviction) (hmax : c.cfg.maxMemory ≠ 0) (hfull : toU64 s.mem ≥ c.cfg.maxMemory)
+    (h : s.lookup c.db k = none) :
+    (handlePush left c ((if left then b "lpush" else b "rpush") :: k :: e0 :: es)).run c s =
+      (s, .done (.err maxMemErr)) := by
+  have hadm := noeviction_admit c s [(k, .list (e0 :: es))] hpol hmax
+  have hno : (setValues c s [(k, .list (e0 :: es))]).2 = false := hadm.1.mpr hfull
+  rw [push_absent_run left c s k e0 es h, hadm.2 hno, hno]
+  rfl
+
+/-- … and below the limit the push is admitted, stores the list and answers its length -/
+theorem admitted_push_stores_list (left : Bool) (c : Ctx) (s : State) (k e0 : Bytes) (es : List Bytes)
+    (hpol : c.cfg.policy = .noeviction) (hmax : c.cfg.maxMemory ≠ 0) (hroom : toU64 s.mem < c.cfg.maxMemory)
+    (h : s.lookup c.db k = none) :
+    (handlePush left c ((if left then b "lpush" else b "rpush") :: k :: e0 :: es)).run c s =
+      ((setValues c s [(k, .list (e0 :: es))]).1, .done (.ok (intReply ((e0 :: es).length : Nat)))) := by
+  have hadm := noeviction_admit c s [(k, .list (e0 :: es))] hpol hmax
+  have hyes : (setValues c s [(k, .list (e0 :: es))]).2 = true := by
+    cases hv : (setValues c s [(k, .list (e0 :: es))]).2
+    · have := hadm.1.mp hv; omega
+    · rfl
+  rw [push_absent_run left c s k e0 es h, hyes]
+  rfl
+
+/-- non-vacuity (the listed witness): two 60-byte strings under a 160-byte limit, then RPUSH l1 a — the push is
+    admitted (120 < 160) and stored whole; at 120 ≥ 120 it is refused and no key `l1` appears -/
+example :
+    let c160 : Ctx := { db := 0, now := 0, cfg := ⟨160, .noeviction⟩ }
+    let c120 : Ctx := { db := 0, now := 0, cfg := ⟨120, .noeviction⟩ }
+    let s : State := { dbs := [(0, ⟨[(b "k1", ⟨.str (b "aa"), none⟩), (b "k2", ⟨.str (b "bb"), none⟩)], []⟩)], mem := 120 }
+    (((handlePush false c160 [b "rpush", b "l1", b "a"]).run c160 s).1.lookup 0 (b "l1") = some ⟨.list [b "a"], none⟩) ∧
+    ((handlePush false c120 [b "rpush", b "l1", b "a"]).run c120 s = (s, .done (.err maxMemErr))) := by decide
 
 /-! ## the background sampler -/
 
